@@ -352,10 +352,38 @@ def run_strio(prog, rep):
                     r = r[2]
                 if l == ('idx', want_l, iv) and r == ('idx', want_r, iv):
                     good = True
-                elif l[:2] == ('idx', want_l):
+                elif l[:2] == ('idx', want_l) and (l[2] != iv or (isinstance(r, tuple) and r[:2] == ('idx', want_r))):
                     probs.append('element %s receives %s' % (a.c[0].src(20), a.c[1].src(30)))
             if not good:
                 probs.append('no assignment pairs element i of both arrays')
+            if direction == 'out' and iv is not None:
+                # every iteration defines data[i]: a never-written element (null) must become the empty string, not keep what the caller's buffer held
+                def defines(n):
+                    if n is None:
+                        return False
+                    if n.k == 'assign' or (n.k == 'call' and n.get('op') == '='):
+                        return term(unwrap(n.c[0])) == ('idx', ('f', 'data'), iv)
+                    if n.k == 'call' and n.get('member') and (n.callee or {}).get('name') in ('clear', 'assign', 'erase') and n.c:
+                        return term(unwrap(n.c[0])) == ('idx', ('f', 'data'), iv)
+                    if n.k == 'compound':
+                        for ch in n.c:
+                            if ch is None:
+                                continue
+                            if ch.k in ('continue', 'break', 'return'):
+                                return False
+                            if defines(ch):
+                                return True
+                            if ch.k == 'if' and any(x.k in ('continue', 'break', 'return') for x in ch.walk()):
+                                return False
+                        return False
+                    if n.k == 'if':
+                        return defines(n.c[3]) and defines(n.c[4])
+                    if n.k in ('exprstmt', 'cleanup', 'paren'):
+                        return any(defines(ch) for ch in n.c)
+                    return False
+                body = lps[0].c[3]
+                if not defines(body):
+                    probs.append('some iteration leaves data[i] untouched (a null element, i.e. one that was never written, keeps the previous content of the caller\'s string instead of reading as empty)')
         rule.check(not probs, '%s|%s' % (cls.split('::')[-1], 'copy-out' if direction == 'out' else 'copy-in'), rep.where(f), f.label(),
                    'for i in [0, nelms): %s' % ('data[i] = buffer[i] (null -> empty)' if direction == 'out' else 'buffer[i] = data[i].c_str()'), '; '.join(sorted(set(probs))))
         op = prog.fn('%s::operator*' % cls)
